@@ -97,6 +97,28 @@ def random_graph_cases(seed, count, min_nodes=6, max_nodes=12):
                'edges': [[lab[u], lab[v], rng.choice((1, 1, 1, 2, 0, 3, 4))] for u, v in t.edges]}
 
 
+def dense_graph_cases(seed, quick=True):
+    """Graphs with many ring bonds open at the same time (the writer then needs two-digit ring markers `%nn`): complete graphs,
+    fans (a path plus spokes from its first node), wheels, with single bonds and with a few seeded non-single orders."""
+    rng = random.Random(seed * 104729 + 7)
+    shapes = []
+    for n in ((6, 7, 8) if quick else (6, 7, 8, 9)):
+        shapes.append(('K%d' % n, nx.complete_graph(n)))
+    for n in ((10, 12, 14) if quick else (10, 11, 12, 13, 14, 16)):
+        fan = nx.path_graph(n)
+        fan.add_edges_from((0, k) for k in range(2, n))
+        shapes.append(('fan%d' % n, fan))
+        shapes.append(('wheel%d' % n, nx.wheel_graph(n)))
+    for name, g0 in shapes:
+        nodes = list(g0.nodes)
+        for variant in range(2 if quick else 5):
+            lab = nodes[:]
+            if variant:
+                rng.shuffle(lab)
+            yield {'nodes': [[lab[i], NAMES[i % 3]] for i in nodes],
+                   'edges': [[lab[u], lab[v], 1 if variant == 0 else rng.choice((1, 1, 1, 1, 2, 3, 0))] for u, v in g0.edges]}
+
+
 def build(case, name_attr='fragname'):
     g = nx.Graph()
     for key, name in case['nodes']:
